@@ -153,7 +153,7 @@ def peerOp (d : DState) (k free : Nat) (dead : Bool) (isExit : Bool) (recvd : Op
         | none => ("VIOLATED", "?")
       match s1.peers[k]? with
       | some q =>
-        (d', s!"{tag} r={res} m=[{";".intercalate (o.msgs.map canon)}] a={a} | u={boolStr q.amUnchoking} i={boolStr q.interested} h={boolStr q.hasInfo} t={boolStr q.ticking} q={q.requested.length}:{(qhash q.requested).toNat} n={s1.num} | told={told} pend={pend}")
+        (d', s!"{tag} r={res} m=[{";".intercalate (o.msgs.map canon)}] a={a} | u={boolStr q.amUnchoking} i={boolStr q.interested} h={boolStr q.hasInfo} t={boolStr q.ticking} q={q.requested.length}:{(qhash q.requested).toNat} x={q.items} n={s1.num} | told={told} pend={pend}")
       | none => (d', "internal")
   | _, _ => (d, "nopeer")
 
